@@ -261,10 +261,12 @@ Proof.
   intros n bx by_ x y p Hn. rewrite tree_scale_side by exact Hn.
   unfold add_core_out_of_range, blk. generalize (4 * side n) as sz. intros sz.
   rewrite Z.gtb_ltb, !Z.geb_leb.
-  destruct (Z.ltb_spec p 0), (Z.ltb_spec 17 p), (Z.ltb_spec x bx), (Z.leb_spec (bx + sz) x),
-    (Z.ltb_spec y by_), (Z.leb_spec (by_ + sz) y), (Z.leb_spec bx x), (Z.ltb_spec x (bx + sz)),
-    (Z.leb_spec by_ y), (Z.ltb_spec y (by_ + sz)), (Z.leb_spec 0 p), (Z.ltb_spec p 18);
-    simpl; try reflexivity; lia.
+  match goal with |- ?a = negb ?b => destruct b eqn:E; simpl negb end.
+  - rewrite !andb_true_iff, !Z.leb_le, !Z.ltb_lt in E.
+    rewrite !orb_false_iff, !Z.ltb_ge, !Z.leb_gt. lia.
+  - match goal with |- ?a = true => destruct a eqn:F; [reflexivity|] end.
+    rewrite !orb_false_iff, !Z.ltb_ge, !Z.leb_gt in F.
+    rewrite <- E. rewrite !andb_true_iff, !Z.leb_le, !Z.ltb_lt. lia.
 Qed.
 
 Lemma sub_index_subi : forall n x y, (n <= 3)%nat -> 0 <= x < 256 -> 0 <= y < 256 ->
